@@ -68,6 +68,55 @@ def writePairsLoop : List (Bytes × Bytes) → Nat → Bytes → List Bytes → 
       if nn + e.length > maxWrite then writePairsLoop rest e.length e (out ++ streamWrite buf)
       else writePairsLoop rest (nn + e.length) (buf ++ e) out
 
+
+/-! ### the bufio.Writer between writePairs / io.Copy and streamWriter, at the level of calls
+
+  `bfe_bufio.NewWriterSize(streamWriter, maxWrite)`; the sink (`streamWriter.Write`) takes everything and never
+  fails on the in-memory connection.  Same functions as `BfeVerif.C22.Writer` (Write with the large-write
+  shortcut, WriteString without it, Flush), but `out` keeps the ARGUMENT OF EACH CALL to the sink, because every
+  call becomes its own FastCGI record(s). -/
+structure BW where
+  buf : Bytes
+  out : List Bytes
+deriving DecidableEq, Repr
+
+def BW.flush (b : BW) : BW := if b.buf.length = 0 then b else { buf := [], out := b.out ++ [b.buf] }
+
+/-- loop of `Write` (`direct = true`) / `WriteString` (`direct = false`) -/
+def BW.writeLoop (direct : Bool) : Nat → BW → Bytes → BW × Bytes
+  | 0, b, p => (b, p)
+  | f + 1, b, p =>
+    if p.length > maxWrite - b.buf.length then
+      if direct ∧ b.buf.length = 0 then BW.writeLoop direct f { b with out := b.out ++ [p] } []
+      else
+        let n := min p.length (maxWrite - b.buf.length)
+        BW.writeLoop direct f (BW.flush { b with buf := b.buf ++ p.take n }) (p.drop n)
+    else (b, p)
+
+def BW.write (direct : Bool) (b : BW) (p : Bytes) : BW :=
+  let r := BW.writeLoop direct (p.length + 3) b p
+  { r.1 with buf := r.1.buf ++ r.2 }
+
+/-- the records a finished writer has produced: every call split by `streamWriter.Write`, then Close's empty record -/
+def BW.records (b : BW) : List Bytes := (b.flush.out.map streamWrite).flatten ++ [[]]
+
+/-- `writePairs`, statement by statement -/
+def writePairsBW : List (Bytes × Bytes) → Nat → BW → Option BW
+  | [], _, b => some b
+  | (k, v) :: rest, nn, b =>
+    if panics k v then none
+    else
+      let v' := truncVal k v
+      let sz := encSize k.length ++ encSize v'.length
+      let m := sz.length + k.length + v'.length
+      let fl := decide (nn + m > maxWrite)
+      let b1 := if fl then b.flush else b
+      let nn1 := if fl then 0 else nn
+      writePairsBW rest (nn1 + m) (BW.write false (BW.write false (BW.write true b1 sz) k) v')
+
+/-- `io.Copy(body, req)` when the source is an io.WriterTo: one `Write(body)` -/
+def bodyBW (body : Bytes) : BW := BW.write true ⟨[], []⟩ body
+
 /-- BEGIN_REQUEST body: role = 1 (responder), flags = 0 -/
 def beginBody : Bytes := [0, 1, 0, 0, 0, 0, 0, 0]
 
@@ -114,6 +163,164 @@ def readStream : Nat → Bytes → Bytes → Bytes × End
           else readStream fuel (rest.drop n) (acc ++ rest.take cl)
 
 def readAll (conn : Bytes) : Bytes × End := readStream (conn.length + 1) conn []
+
+
+/-! ## building the CGI environment: transport.go `buildMetaValsAndMethod` + the params map of `RoundTrip`
+
+  `metaHeader` is an http.Header: `Add` appends a value under the canonical key, `Set` replaces all values.
+  All keys used are upper case ASCII (the static names; `"HTTP_"+ToUpper(name)` with `-` -> `_`) or operator
+  configuration (`EnvVars`), and RoundTrip finally does `metaData[strings.ToUpper(k)] = strings.Join(vs, ",")`,
+  so the model keys the header by the upper-cased name (for token names two names have the same canonical
+  MIME form iff they have the same upper-case form).  The header is kept as the LOG of Add/Set operations;
+  `lookup` replays the log, which is exactly Go's map-of-slices semantics.
+  Library calls the model does not re-implement are inputs (`scriptFilename` = filepath.Join(root, path), `pathInfoJoin`
+  = filepath.Join(root, ""), `reqHost`/`reqPort` = net.SplitHostPort(r.Host), `requestURI` = r.URL.RequestURI()).
+  After the C55 httpoxy fix a request header whose mapped name is PROXY is skipped. -/
+
+def kGATEWAY_INTERFACE : Bytes := [71, 65, 84, 69, 87, 65, 89, 95, 73, 78, 84, 69, 82, 70, 65, 67, 69]   -- "GATEWAY_INTERFACE"
+def kSERVER_SOFTWARE : Bytes := [83, 69, 82, 86, 69, 82, 95, 83, 79, 70, 84, 87, 65, 82, 69]   -- "SERVER_SOFTWARE"
+def kAUTH_TYPE : Bytes := [65, 85, 84, 72, 95, 84, 89, 80, 69]   -- "AUTH_TYPE"
+def kCONTENT_LENGTH : Bytes := [67, 79, 78, 84, 69, 78, 84, 95, 76, 69, 78, 71, 84, 72]   -- "CONTENT_LENGTH"
+def kCONTENT_TYPE : Bytes := [67, 79, 78, 84, 69, 78, 84, 95, 84, 89, 80, 69]   -- "CONTENT_TYPE"
+def kPATH_INFO : Bytes := [80, 65, 84, 72, 95, 73, 78, 70, 79]   -- "PATH_INFO"
+def kQUERY_STRING : Bytes := [81, 85, 69, 82, 89, 95, 83, 84, 82, 73, 78, 71]   -- "QUERY_STRING"
+def kREMOTE_ADDR : Bytes := [82, 69, 77, 79, 84, 69, 95, 65, 68, 68, 82]   -- "REMOTE_ADDR"
+def kREMOTE_HOST : Bytes := [82, 69, 77, 79, 84, 69, 95, 72, 79, 83, 84]   -- "REMOTE_HOST"
+def kREMOTE_PORT : Bytes := [82, 69, 77, 79, 84, 69, 95, 80, 79, 82, 84]   -- "REMOTE_PORT"
+def kREMOTE_IDENT : Bytes := [82, 69, 77, 79, 84, 69, 95, 73, 68, 69, 78, 84]   -- "REMOTE_IDENT"
+def kREMOTE_USER : Bytes := [82, 69, 77, 79, 84, 69, 95, 85, 83, 69, 82]   -- "REMOTE_USER"
+def kREQUEST_METHOD : Bytes := [82, 69, 81, 85, 69, 83, 84, 95, 77, 69, 84, 72, 79, 68]   -- "REQUEST_METHOD"
+def kREQUEST_SCHEME : Bytes := [82, 69, 81, 85, 69, 83, 84, 95, 83, 67, 72, 69, 77, 69]   -- "REQUEST_SCHEME"
+def kSERVER_NAME : Bytes := [83, 69, 82, 86, 69, 82, 95, 78, 65, 77, 69]   -- "SERVER_NAME"
+def kSERVER_PORT : Bytes := [83, 69, 82, 86, 69, 82, 95, 80, 79, 82, 84]   -- "SERVER_PORT"
+def kSERVER_PROTOCOL : Bytes := [83, 69, 82, 86, 69, 82, 95, 80, 82, 79, 84, 79, 67, 79, 76]   -- "SERVER_PROTOCOL"
+def kDOCUMENT_ROOT : Bytes := [68, 79, 67, 85, 77, 69, 78, 84, 95, 82, 79, 79, 84]   -- "DOCUMENT_ROOT"
+def kDOCUMENT_URI : Bytes := [68, 79, 67, 85, 77, 69, 78, 84, 95, 85, 82, 73]   -- "DOCUMENT_URI"
+def kHTTP_HOST : Bytes := [72, 84, 84, 80, 95, 72, 79, 83, 84]   -- "HTTP_HOST"
+def kREQUEST_URI : Bytes := [82, 69, 81, 85, 69, 83, 84, 95, 85, 82, 73]   -- "REQUEST_URI"
+def kSCRIPT_FILENAME : Bytes := [83, 67, 82, 73, 80, 84, 95, 70, 73, 76, 69, 78, 65, 77, 69]   -- "SCRIPT_FILENAME"
+def kSCRIPT_NAME : Bytes := [83, 67, 82, 73, 80, 84, 95, 78, 65, 77, 69]   -- "SCRIPT_NAME"
+def kHTTP_PROXY : Bytes := [72, 84, 84, 80, 95, 80, 82, 79, 88, 89]   -- "HTTP_PROXY"
+def sCGI11 : Bytes := [67, 71, 73, 47, 49, 46, 49]   -- "CGI/1.1"
+def sBFE : Bytes := [66, 70, 69]   -- "BFE"
+def sHTTP_ : Bytes := [72, 84, 84, 80, 95]   -- "HTTP_"
+def sPROXY : Bytes := [80, 82, 79, 88, 89]   -- "PROXY"
+def sContentLength : Bytes := [67, 111, 110, 116, 101, 110, 116, 45, 76, 101, 110, 103, 116, 104]   -- "Content-Length"
+def sContentType : Bytes := [67, 111, 110, 116, 101, 110, 116, 45, 84, 121, 112, 101]   -- "Content-Type"
+def sDefaultCT : Bytes := [97, 112, 112, 108, 105, 99, 97, 116, 105, 111, 110, 47, 120, 45, 119, 119, 119, 45, 102, 111, 114, 109, 45, 117, 114, 108, 101, 110, 99, 111, 100, 101, 100]   -- "application/x-www-form-urlencoded"
+
+inductive Op
+  | add (k v : Bytes)
+  | set (k v : Bytes)
+deriving DecidableEq, Repr
+
+def Op.key : Op → Bytes
+  | .add k _ => k
+  | .set k _ => k
+
+def step (k : Bytes) (st : Option (List Bytes)) : Op → Option (List Bytes)
+  | .add k' v => if k' = k then some (st.getD [] ++ [v]) else st
+  | .set k' v => if k' = k then some [v] else st
+
+/-- the values stored under key `k` after the operations of the log -/
+def lookup (k : Bytes) (ops : List Op) : Option (List Bytes) := ops.foldl (step k) none
+
+structure RtIn where
+  method : Bytes
+  remote : Bytes
+  host : Bytes
+  path : Bytes
+  rawQuery : Bytes
+  proto : Bytes
+  scheme : Bytes
+  contentLength : Int
+  root : Bytes
+  envVars : List (Bytes × Bytes)
+  hdrs : List (Bytes × List Bytes)
+  scriptFilename : Bytes
+  pathInfoJoin : Bytes
+  reqHost : Bytes
+  reqPort : Bytes
+  requestURI : Bytes
+
+def upperB (c : UInt8) : UInt8 := if 97 ≤ c.toNat ∧ c.toNat ≤ 122 then c - 32 else c
+def upper (s : Bytes) : Bytes := s.map upperB
+def dashUnd (s : Bytes) : Bytes := s.map (fun c => if c = 45 then 95 else c)
+
+def joinWith (sep : Bytes) : List Bytes → Bytes
+  | [] => []
+  | [x] => x
+  | x :: y :: xs => x ++ sep ++ joinWith sep (y :: xs)
+
+/-- `Header.Get(key)` for an already canonical key -/
+def hget (hdrs : List (Bytes × List Bytes)) (k : Bytes) : Bytes :=
+  match hdrs.find? (fun p => p.1 == k) with
+  | some (_, v :: _) => v
+  | _ => []
+
+/-- `strings.LastIndex(s, ":")` -/
+def lastColon (s : Bytes) : Option Nat :=
+  (List.range s.length).foldl (fun acc i => if s.getD i 0 == 58 then some i else acc) none
+
+/-- `strings.Replace(s, string(c), "", 1)` -/
+def removeFirst (c : UInt8) : Bytes → Bytes
+  | [] => []
+  | x :: xs => if x = c then xs else x :: removeFirst c xs
+
+def remoteIpPort (r : Bytes) : Bytes × Bytes :=
+  let (ip, port) := match lastColon r with
+    | some idx => (r.take idx, r.drop (idx + 1))
+    | none => (r, [])
+  (removeFirst 93 (removeFirst 91 ip), port)
+
+def fmtInt (i : Int) : Bytes := (toString i).toUTF8.toList
+
+/-- the first three `Add`s -/
+def staticA : List Op := [.add kGATEWAY_INTERFACE sCGI11, .add kSERVER_SOFTWARE sBFE, .add kAUTH_TYPE []]
+
+/-- the two `Add`s that read request headers -/
+def staticH (i : RtIn) : List Op :=
+  [.add kCONTENT_LENGTH (hget i.hdrs sContentLength), .add kCONTENT_TYPE (hget i.hdrs sContentType)]
+
+/-- the remaining static `Add`s (none of them reads the request headers) -/
+def staticB (i : RtIn) : List Op :=
+  let ipp := remoteIpPort i.remote
+  [.add kPATH_INFO [], .add kQUERY_STRING i.rawQuery, .add kREMOTE_ADDR ipp.1, .add kREMOTE_HOST ipp.1,
+   .add kREMOTE_PORT ipp.2, .add kREMOTE_IDENT [], .add kREMOTE_USER [], .add kREQUEST_METHOD i.method,
+   .add kREQUEST_SCHEME i.scheme, .add kSERVER_NAME i.reqHost, .add kSERVER_PORT i.reqPort,
+   .add kSERVER_PROTOCOL i.proto, .add kDOCUMENT_ROOT i.root, .add kDOCUMENT_URI i.path, .add kHTTP_HOST i.host,
+   .add kREQUEST_URI i.requestURI, .add kSCRIPT_FILENAME i.scriptFilename, .add kSCRIPT_NAME i.path]
+
+/-- `if metaHeader.Get("PATH_INFO") == "" { metaHeader.Add("PATH_INFO", filepath.Join(root, pathInfo)) }` -/
+def pathInfoOps (i : RtIn) (before : List Op) : List Op :=
+  match lookup kPATH_INFO before with
+  | some (v :: _) => if v.length = 0 then [.add kPATH_INFO i.pathInfoJoin] else []
+  | _ => [.add kPATH_INFO i.pathInfoJoin]
+
+def envOps (i : RtIn) : List Op := i.envVars.map (fun p => .set (upper p.1) p.2)
+
+/-- one request header; `none` = skipped (the httpoxy fix) -/
+def hdrOp (h : Bytes × List Bytes) : Option Op :=
+  let name := dashUnd (upper h.1)
+  if name = sPROXY then none else some (.add (sHTTP_ ++ name) (joinWith [44, 32] h.2))
+
+def hdrOps (i : RtIn) : List Op := i.hdrs.filterMap hdrOp
+
+def finalOps (i : RtIn) : List Op :=
+  let ct := hget i.hdrs sContentType
+  [.set kREQUEST_METHOD i.method, .set kCONTENT_LENGTH (fmtInt i.contentLength),
+   .set kCONTENT_TYPE (if ct.length = 0 then sDefaultCT else ct)]
+
+def envLog (i : RtIn) : List Op :=
+  let s := staticA ++ staticH i ++ staticB i
+  s ++ pathInfoOps i s ++ envOps i ++ hdrOps i ++ finalOps i
+
+/-- the params map handed to `client.Do`: every key of the log (first appearance), values joined with "," -/
+def envPairs (i : RtIn) : List (Bytes × Bytes) :=
+  let log := envLog i
+  (log.map Op.key).eraseDups.map fun k => (k, joinWith [44] ((lookup k log).getD []))
+
+def isHttpKey (k : Bytes) : Bool := k.take 5 == sHTTP_
 
 /-! ## SPEC: FastCGI 1.0 decoder (record layer §3.3, name-value pairs §3.4, streams §3.3/§5) -/
 
